@@ -416,16 +416,23 @@ def no_escape(index: RepoIndex, rep, rule: str) -> None:
                 rep.check(guarded, rule, f.relpath, name, e.line, src(e.stmt),
                           f'`{src(e.node)}` looks the action up in a table that does not cover '
                           f'every action: KeyError escapes the step', f'{name}: guarded lookup')
-    # get_next_position (shared helper of move_agent / bump_into_wall)
+    # get_next_position (shared helper of move_agent / bump_into_wall): its denotation for
+    # every action and heading is a value, never an escaping KeyError
+    from ..geom import GeoInterp, P
+    gi = GeoInterp(index)
     f = index.func('gym_gridverse/envs/utils.py', 'get_next_position')
-    w = walk_function(f.node)
-    for e in w.events:
-        if e.kind == 'load' and isinstance(e.node.value, ast.Name) and \
-                e.node.value.id in ev.action_tables:
-            rep.check(any('KeyError' in t for t in e.in_try), rule, f.relpath,
-                      'get_next_position', e.line, src(e.stmt),
-                      'the move table lookup is not protected against non-move actions',
-                      'get_next_position: guarded lookup')
+    ps = [a.arg for a in f.node.args.args]
+    if len(ps) != 3:
+        raise AnalysisError('get_next_position no longer takes (position, orientation, action)')
+    bad = []
+    for a in index.enum('Action').order:
+        for o in index.enum('Orientation').order:
+            got = gi.call(f, {ps[0]: P('py', 'px'), ps[1]: ('O', o), ps[2]: ('E', 'Action', a)})
+            if got[0] == 'X' and got[1].startswith('raise'):
+                bad.append(f'{a}/{o}: {got[1]}')
+    rep.check(not bad, rule, f.relpath, 'get_next_position', f.node.lineno,
+              'get_next_position', 'the move table lookup is not protected against non-move '
+              f'actions: {bad[:3]}', 'get_next_position: guarded lookup')
 
 
 def run(index: RepoIndex, rep) -> None:
